@@ -43,9 +43,17 @@ pub struct FileAppender {
 
 impl Append for FileAppender {
     fn append(&self, record: &Record) -> anyhow::Result<()> {
+        #[cfg(feature = "verif_hooks")]
+        crate::verif::sync_point("file.before_lock", 0);
         let mut file = self.file.lock();
+        #[cfg(feature = "verif_hooks")]
+        crate::verif::sync_point("file.locked", 0);
         self.encoder.encode(&mut *file, record)?;
+        #[cfg(feature = "verif_hooks")]
+        crate::verif::sync_point("file.encoded", 0);
         file.flush()?;
+        #[cfg(feature = "verif_hooks")]
+        crate::verif::sync_point("file.flushed", 0);
         Ok(())
     }
 
